@@ -14,6 +14,7 @@ import LlirModel.Drv.HistOps
 import LlirModel.Drv.FloatOps
 import LlirModel.Drv.MetaOps
 import LlirModel.Drv.WholeOps
+import LlirModel.Drv.DIOps
 open Llir Llir.Drv
 
 def dispatch (op : String) (args : List String) : String :=
@@ -63,6 +64,9 @@ def dispatch (op : String) (args : List String) : String :=
   | some r => r
   | none =>
   match wholeOps op args with
+  | some r => r
+  | none =>
+  match diOps op args with
   | some r => r
   | none => "unknown-op"
 
